@@ -87,8 +87,48 @@ def _group_value_premise(F):
     return True, "callers={extract_group_key, update_accumulator}; build_group_array and widen_distinct_input refuse other types; every update_accumulator input is widened"
 
 
+def _morsel_scalar_premise(F):
+    """morsel_agg::extract_scalar keeps a Null fall-through for types it has no arm for, but no such value reaches it:
+    (1) AggregationState::process_batch refuses (Err) every group-key array and every valued aggregate input whose type
+        scalar_representable() rejects, and that refusal dominates the construction of the accessors that call extract_scalar;
+    (2) COUNT inputs of other types are counted by validity before extract_scalar is reached;
+    (3) extract_scalar is called only from the morsel aggregation module (TypedArrayAccessor / AggregationState)."""
+    M = "physical::morsel_agg"
+    if M + "::scalar_representable" not in F.bodies:
+        return False, "scalar_representable is gone"
+    pb = F.one("AggregationState::process_batch", file="src/physical/morsel_agg.rs")
+    gate = [c for c in pb.calls() if c.name == M + "::scalar_representable"]
+    if not gate:
+        return False, "process_batch no longer consults scalar_representable"
+    import guards
+    def builds_accessor(c):
+        if c.name.rsplit("::", 1)[-1] == "from_array":
+            return True
+        # `.map(TypedArrayAccessor::from_array)`: the constructor travels as a fn item
+        return any(isinstance(a, dict) and "from_array" in str(a.get("fn", "")) + str(a.get("p", "")) for a in c.args)
+    acc = [c for c in pb.calls() if builds_accessor(c)]
+    if not acc:
+        return False, "no accessor construction found in process_batch"
+    # the gate's failing edge returns Err, and the gate block dominates the first accessor construction in the function body
+    errs = [i for i, j, dst, rv, line in pb.stmts() if dst == "0" and rv[0] == "agg" and rv[1] == "adt:std::result::Result::Err"]
+    refuses = any(pb.dominates(g_.bb, e) for g_ in gate for e in errs)
+    first_build = min((i for i, j, dst, rv, line in pb.stmts() if rv[0] == "agg" and rv[1].startswith("closure:") and any(x.name.rsplit("::", 1)[-1] == "from_array" for x in F.fam_calls(rv[1][8:]))), default=None)
+    builds = [c.bb for c in acc] + ([first_build] if first_build is not None else [])
+    # the gate sits in a loop over the arrays (zero iterations for no arrays): what must dominate the construction is the
+    # loop's header, i.e. the iterator `next` that dominates the gate, and the construction must lie outside the loop body
+    heads = [c for c in pb.calls() if c.name.rsplit("::", 1)[-1] == "next" and any(pb.dominates(c.bb, g_.bb) and pb.path_exists(g_.bb, c.bb) for g_ in gate)]
+    doms = [g_.bb for g_ in gate] + [h.bb for h in heads]
+    if not refuses or not builds or not all(any(pb.dominates(d_, b_) for d_ in doms) for b_ in builds):
+        return False, "the type refusal does not dominate the accessor construction"
+    outside = [c.fn.path for c in F.callers_of(M + "::extract_scalar") if not c.fn.file.endswith("physical/morsel_agg.rs")]
+    if outside:
+        return False, f"extract_scalar called from {outside[:2]}"
+    return True, "process_batch refuses unrepresentable key / input types before building accessors; callers confined to morsel_agg.rs"
+
+
 # one named symbol per entry, each with a machine-checked premise (a failed premise is reported as a violation)
-REVIEWED = {"physical::operators::hash_agg::extract_group_value": _group_value_premise}
+REVIEWED = {"physical::operators::hash_agg::extract_group_value": _group_value_premise,
+            "physical::morsel_agg::extract_scalar": _morsel_scalar_premise}
 
 
 def run(F, R):
